@@ -13,6 +13,15 @@ import (
 func canon(v ssa.Value) ssa.Value {
 	for i := 0; i < 16; i++ {
 		v = strip(v)
+		// a parameter of a function the pinned tree does not have (a closure written as a named
+		// function: what it captured is now passed in) is what every caller passes for it
+		if p, isParam := v.(*ssa.Parameter); isParam && resolveNewFuncParams {
+			if a := newFuncParamArg(p); a != nil {
+				v = a
+				continue
+			}
+			return v
+		}
 		if phi, isPhi := v.(*ssa.Phi); isPhi {
 			// result merge of an inlined helper: `return zero, err` inputs are not observable on the success path
 			l := phiLive(phi)
@@ -66,6 +75,100 @@ func canon(v ssa.Value) ssa.Value {
 		v = st[0].Val
 	}
 	return v
+}
+
+// resolveNewFuncParams switches the resolution of parameters of unspliced new functions in canon on.
+// Off: it confused the recognisers that look at a helper's own parameter (the length-sum helpers of
+// LdWrite); kept for the rules that ask for it explicitly.
+var resolveNewFuncParams = false
+
+var newFuncCallSites = map[*ssa.Function][]ssa.CallInstruction{}
+
+// newFuncParamArg: p is a parameter of an unspliced new function all of whose static call sites
+// (at least one, all in one calling function) pass the same value for it: that value.
+func newFuncParamArg(p *ssa.Parameter) ssa.Value {
+	f := p.Parent()
+	if f == nil || f.Parent() != nil || f.Pkg == nil || !isRepoPkg(f.Pkg.Pkg.Path()) {
+		return nil
+	}
+	if k := ssaDeclKey(f); k == "" || baselineFuncs[k] {
+		return nil
+	}
+	sites, ok := newFuncCallSites[f]
+	if !ok {
+		for _, m := range f.Pkg.Members {
+			var fns []*ssa.Function
+			switch x := m.(type) {
+			case *ssa.Function:
+				fns = append(fns, x)
+			case *ssa.Type:
+				for _, t := range []types.Type{x.Type(), types.NewPointer(x.Type())} {
+					ms := f.Prog.MethodSets.MethodSet(t)
+					for i := 0; i < ms.Len(); i++ {
+						if mf := f.Prog.MethodValue(ms.At(i)); mf != nil && mf.Pkg == f.Pkg {
+							fns = append(fns, mf)
+						}
+					}
+				}
+			}
+			for _, g0 := range fns {
+				for _, g := range withAnonSeen(g0, map[*ssa.Function]bool{f: true}) {
+					for _, b := range g.Blocks {
+						for _, in := range b.Instrs {
+							if ci, ok := in.(ssa.CallInstruction); ok && ci.Common().StaticCallee() == f {
+								sites = append(sites, ci)
+							}
+						}
+					}
+				}
+			}
+		}
+		// the same site may be seen through several members
+		uniq := map[ssa.CallInstruction]bool{}
+		var out []ssa.CallInstruction
+		for _, s := range sites {
+			if !uniq[s] {
+				uniq[s] = true
+				out = append(out, s)
+			}
+		}
+		sites = out
+		newFuncCallSites[f] = sites
+	}
+	if len(sites) == 0 {
+		return nil
+	}
+	idx := -1
+	for i, q := range f.Params {
+		if q == p {
+			idx = i
+		}
+	}
+	if idx < 0 {
+		return nil
+	}
+	var val ssa.Value
+	for _, s := range sites {
+		if s.Parent() == f {
+			continue // the function calling itself hands its own parameter on
+		}
+		args := s.Common().Args
+		if idx >= len(args) {
+			return nil
+		}
+		a := args[idx]
+		if val != nil && a != val {
+			// two sites: the same only if both are the same parameter or value of one caller
+			if pa, ok1 := a.(*ssa.Parameter); !ok1 || pa != val {
+				return nil
+			}
+		}
+		val = a
+	}
+	if val == ssa.Value(p) {
+		return nil
+	}
+	return val
 }
 
 func sameValue(a, b ssa.Value) bool { return canon(a) == canon(b) }
